@@ -146,6 +146,9 @@ def run(rep, tier):
     for d_ in rdbs:
         rep.units.append(d_.label)
     check_route(rep, rdbs)
+    rep.rule("R-C06-derived", "++ / -- on an integer in sandbox memory is `x = x +/- 1` computed in the application type and stored back through the checked conversion (shared analysis with C16's derived-operator rule)")
+    n_inc = check_incdec(rep, facts.load_core(["model32"], ["NUM"], thorough=(tier == "thorough")))
+    rep.require(n_inc >= 4, "only %d ++/-- instantiations on integers in sandbox memory analysed (floor 4)" % n_inc)
     map_witnesses(rep)
     rep.assumptions += ["LP64 host data model as reported by clang for the analysed target",
                         "abort checks are recognised semantically (any function that aborts/throws unless its bool argument holds)"]
@@ -154,6 +157,23 @@ def run(rep, tier):
 ROUTE_FUNCS = {"rlbox::tainted_volatile::operator=", "rlbox::tainted_volatile::get_raw_value", "rlbox::tainted::get_raw_sandbox_value", "rlbox::tainted::tainted",
                "rlbox::rlbox_sandbox::INTERNAL_invoke_with_func_ptr", "rlbox::rlbox_sandbox::sandbox_callback_interceptor", "rlbox::detail::convert_type_class::run",
                "rlbox::tainted_base_impl::copy_and_verify", "rlbox::tainted_base_impl::copy_and_verify_range"}
+
+
+def check_incdec(rep, dbs):
+    """R-C06-derived: ++ / -- (and op=) on an integer that lives in sandbox memory are `x = x op 1` through the checked conversion - never
+    arithmetic on the stored (guest-width) representation, which wraps silently where the checked store aborts"""
+    from . import ops
+    n = 0
+    for db in dbs:
+        for f in db.functions:
+            if f["dep"] or "body" not in f or not f["n"].startswith(ops.BASE) or f.get("oo") not in ("++", "--"):
+                continue
+            T = ops.class_T(f) or {}
+            if T.get("k") not in ("int", "bool", "enum") or ops.wrapper_kind(f) != "tainted_volatile":
+                continue
+            ops.check_derived(rep, "C06", db, f, "%s | %s" % (db.label, f["full"][:150]))
+            n += 1
+    return n
 
 
 def check_route(rep, dbs):
